@@ -14,7 +14,7 @@ PROP_MODULES = {
     "C02": ["contracts.c02", "contracts.c02_bounded", "contracts.c15"],
     "C03": ["contracts.c03", "contracts.c03_bounded", "contracts.c06", "contracts.c05c"],
     "C04": ["contracts.c04", "contracts.c05", "contracts.c03"],
-    "C05": ["contracts.c05", "contracts.c05c", "contracts.c05_bounded"],
+    "C05": ["contracts.c05", "contracts.c05c", "contracts.c05_bounded", "contracts.c05_fields_bounded"],
     "C11": ["contracts.c11", "contracts.c11_bounded", "contracts.c02"],
     "C19": ["contracts.c19", "contracts.c19b", "contracts.c19_bounded", "contracts.c02", "contracts.c15"],
     "C12": ["contracts.c12", "contracts.c12b", "contracts.c12c", "contracts.c12_bounded", "contracts.c10", "contracts.c13c"],
@@ -35,14 +35,16 @@ PROP_MODULES = {
 # modules whose contracts / lemmas / stand-ins are included WHOLESALE in a property's check because the property depends on the functions
 # they cover (the property statement is end-to-end; a change in a dependency breaks it too)
 RELATED = {
-    "C01": ["contracts.c03", "contracts.c03_bounded", "contracts.c04", "contracts.c05", "contracts.c05c", "contracts.c18", "contracts.c18_bounded", "contracts.c02", "contracts.c02_bounded"],
+    "C01": ["contracts.c03", "contracts.c03_bounded", "contracts.c04", "contracts.c05", "contracts.c05c", "contracts.c18", "contracts.c18_bounded", "contracts.c02", "contracts.c02_bounded", "contracts.c05_fields_bounded"],
+    "C03": ["contracts.c05"],
+    "C04": ["contracts.c12"],
     "C05": ["contracts.c01b"],
     "C06": ["contracts.c03"],
     "C08": ["contracts.c13", "contracts.c13b", "contracts.c14"],
     "C10": ["contracts.c08", "contracts.c12", "contracts.c13"],
     "C12": ["contracts.c13", "contracts.c17"],
-    "C17": ["contracts.c12", "contracts.c03_bounded"],
-    "C18": ["contracts.c15", "contracts.c01"],
+    "C17": ["contracts.c12", "contracts.c03_bounded", "contracts.c14"],
+    "C18": ["contracts.c15", "contracts.c01", "contracts.c01b", "contracts.c05"],
 }
 
 _search_cache = {}
